@@ -186,6 +186,8 @@ def run(chk):
             all_stops(chk, cases, beh, ci, rounds if full else [0, 15], True, 'uint8')
     shapes(chk, cases, grid, beh, rng, nkeys, nblocks)
     primitives(chk, rng)
+    from .. import apirules
+    apirules.run(chk, 'des_stop', 'C06')
     chk.sample({'keys': cases[2]['keys'], 'block': cases[2]['block'], 'round0_views': beh[2]['enc'][0]})
 
 
